@@ -1,0 +1,18 @@
+//go:build verif
+
+// Contracts for the deductive verifier in /verif (comment-only; never compiled without the tag).
+
+package cfg
+
+// ---------------------------------------------------------------- cfg.go (C02, C20): defaults and the hand-over of the levels
+// The documented default for both validation levels is "medium" (an absent option keeps it), and
+// TableConfig hands the configured levels, in this order, to the table.
+//@ func NewConfig() (c Config)
+//@   property C02,C20
+//@   ensures[validation_defaults_medium; C02] c.Validation_level_legacy.Level == carbon20.MediumLegacy && c.Validation_level_m20.Level == carbon20.MediumM20 && !c.Validate_order
+//@   ensures[read_timeouts; C20] c.Plain_read_timeout.Duration == 120000000000 && c.Pickle_read_timeout.Duration == 120000000000
+//@
+//@ func (c Config) TableConfig() (t table.TableConfig, err error)
+//@   property C02,C20
+//@   modifies *
+//@   ensures[levels_handed_over; C02] err == nil ==> t.Validation_level_legacy.Level == c.Validation_level_legacy.Level && t.Validation_level_m20.Level == c.Validation_level_m20.Level && t.Validate_order == c.Validate_order && t.SpoolDir == c.Spool_dir
